@@ -548,3 +548,273 @@ func init() {
 	Classes["C06"].Eval = evalC06
 	Classes["C06"].QuickRuns = 50_000
 }
+
+// ---------------------------------------------------------------- C15: equivalent encodings
+
+// reencode rewrites one function spec into an equivalent encoding: the leaf
+// parameters / results stay in declaration order, only the wrapping changes.
+func reencode(f *Func, r *Rng) (Func, bool) {
+	n := deepCopyFunc(f)
+	changed := false
+	// parameters
+	lp := f.LeafParams()
+	if len(lp) > 0 {
+		var leaves []Param
+		collectParams(f.Params, &leaves)
+		var out []Param
+		var cur *Param
+		for i, p := range leaves {
+			must := p.Kind == PGroup || p.Name != "" || p.Opt
+			if !must && r.P(0.4) {
+				out = append(out, p)
+				cur = nil
+				continue
+			}
+			if cur == nil || r.P(0.25) {
+				out = append(out, Param{Kind: PObj})
+				cur = &out[len(out)-1]
+			}
+			q := p
+			for d := r.Intn(3); d > 0; d-- {
+				q = Param{Kind: PObj, Fields: []Param{q}}
+			}
+			cur.Fields = append(cur.Fields, q)
+			_ = i
+		}
+		n.Params = out
+		changed = true
+	}
+	// variadic
+	if r.P(0.3) {
+		n.Variadic = !n.Variadic
+		changed = true
+	}
+	// results (constructors without As; decorators keep their form unless all singles)
+	if len(f.OptAs) == 0 {
+		var leaves []Result
+		collectResults(f, &leaves)
+		n.OptName, n.OptGroup, n.OptFlatten = "", "", false
+		allPlain := true
+		for _, l := range leaves {
+			if l.Kind != RSingle || l.Name != "" {
+				allPlain = false
+			}
+		}
+		switch {
+		case f.Role == RoleCtor && len(leaves) == 1 && r.P(0.5):
+			// a single result: positional, name/group moved to the option
+			l := leaves[0]
+			if l.Kind == RGroup {
+				n.OptGroup, n.OptFlatten = l.Group, l.Flatten
+			} else {
+				n.OptName = l.Name
+			}
+			n.Results = []Result{{Kind: RSingle, T: l.T}}
+		case allPlain && r.P(0.4):
+			n.Results = leaves
+		default:
+			var out []Result
+			var cur *Result
+			for _, l := range leaves {
+				must := l.Kind == RGroup || l.Name != ""
+				if !must && r.P(0.3) {
+					out = append(out, l)
+					cur = nil
+					continue
+				}
+				if cur == nil || r.P(0.25) {
+					out = append(out, Result{Kind: RObj})
+					cur = &out[len(out)-1]
+				}
+				q := l
+				for d := r.Intn(3); d > 0; d-- {
+					q = Result{Kind: RObj, Fields: []Result{q}}
+				}
+				cur.Fields = append(cur.Fields, q)
+			}
+			n.Results = out
+		}
+		changed = true
+	}
+	return n, changed
+}
+
+func collectParams(ps []Param, out *[]Param) {
+	for _, p := range ps {
+		if p.Kind == PObj {
+			collectParams(p.Fields, out)
+			continue
+		}
+		*out = append(*out, p)
+	}
+}
+
+// collectResults lists the leaf results with option names/groups folded into
+// the leaves (so that they can be re-expressed as tags).
+func collectResults(f *Func, out *[]Result) {
+	var walk func(rs []Result, top bool)
+	walk = func(rs []Result, top bool) {
+		for _, r := range rs {
+			if r.Kind == RObj {
+				walk(r.Fields, false)
+				continue
+			}
+			if top && f.Role == RoleCtor && r.Kind == RSingle {
+				if f.OptGroup != "" {
+					r = Result{Kind: RGroup, T: r.T, Group: f.OptGroup, Flatten: f.OptFlatten}
+				} else {
+					r.Name = f.OptName
+				}
+			}
+			*out = append(*out, r)
+		}
+	}
+	walk(f.Results, true)
+}
+
+func evalC15(h *History) *Outcome {
+	hc := AppendCensus(h, 16)
+	c := RunChecked(hc)
+	o := outcomeOf(c, "C15")
+	o.CensusOps = len(hc.Ops) - len(h.Ops)
+	r := NewRng(mix64(h.Seed, h.Run) ^ 0xc15)
+	th := hc.Clone()
+	nchanged := 0
+	deep := false
+	for i := range th.Funcs {
+		if !fnUsed(th, i) {
+			continue
+		}
+		nf, ch := reencode(&hc.Funcs[i], r)
+		if ch {
+			th.Funcs[i] = nf
+			nchanged++
+		}
+	}
+	_ = deep
+	// sanity: the re-encoding must preserve the declared leaves exactly
+	for i := range th.Funcs {
+		a, b := hc.Funcs[i].LeafParams(), th.Funcs[i].LeafParams()
+		ra, rb := hc.Funcs[i].LeafResults(), th.Funcs[i].LeafResults()
+		if !sameLeaves(a, b) || !sameResultLeaves(ra, rb) {
+			o.Viol = append(o.Viol, Violation{Props: []string{"HARNESS"}, Class: "harness-reencode", Op: -1,
+				Detail: fmt.Sprintf("re-encoding changed the leaves of %s -> %s", hc.Funcs[i].String(), th.Funcs[i].String())})
+			return o
+		}
+	}
+	tr := Execute(th)
+	o.Twins++
+	if d := compareObs(Observe(c.R), Observe(tr), func(i int) int { return i }, "exact"); d != nil {
+		o.Viol = append(o.Viol, Violation{Props: []string{"C15"}, Class: "encoding-changes-outcome", Op: d.Op,
+			Detail: fmt.Sprintf("op %d (%s): original encoding vs re-encoded functions: %s; re-encoded: %s", d.Op, hc.Ops[d.Op].Kind, d.Detail, describeFn(th, hc.Ops[d.Op]))})
+	}
+	o.NonTrivial = nchanged >= 2
+	c.probe("reencoded")
+	o.Probes = c.Probes
+	return o
+}
+
+func describeFn(h *History, op Op) string {
+	if op.Kind == OpProvide || op.Kind == OpDecorate || op.Kind == OpInvoke {
+		return h.Funcs[op.Fn].String()
+	}
+	return ""
+}
+
+func sameLeaves(a, b []LeafParam) bool {
+	if len(a) != len(b) {
+		return false
+	}
+	for i := range a {
+		if a[i].Key != b[i].Key || a[i].Opt != b[i].Opt || a[i].Soft != b[i].Soft || a[i].NamedSlice != b[i].NamedSlice {
+			return false
+		}
+	}
+	return true
+}
+
+func sameResultLeaves(a, b []LeafResult) bool {
+	if len(a) != len(b) {
+		return false
+	}
+	for i := range a {
+		if a[i].Flatten != b[i].Flatten || len(a[i].Keys) != len(b[i].Keys) {
+			return false
+		}
+		for j := range a[i].Keys {
+			if a[i].Keys[j] != b[i].Keys[j] {
+				return false
+			}
+		}
+	}
+	return true
+}
+
+func init() {
+	register(&ClassDef{
+		Prop: "C15",
+		Rule: "history in which at least 2 functions were re-encoded (positional <-> dig.In/dig.Out at depth 1-3, option <-> tag, variadic toggled) in the twin run",
+		Gen: genGeneric("C15", func(g *genCtx) {
+			g.ft.FaultRate = []float64{0, 0.15}[g.r.Intn(2)]
+			g.ft.FaultInv = g.ft.FaultRate / 2
+			g.ft.Soft = false
+			g.ft.Objects = true
+			g.ft.PAvail = 0.9
+		}, defaultMix),
+		Eval:       evalC15,
+		QuickRuns:  60_000,
+		WantProbes: []string{"reencoded"},
+	})
+}
+
+// ---------------------------------------------------------------- C14: bad input
+
+func evalC14(h *History) *Outcome {
+	o := evalC06(h)
+	// evalC06 ran the history with the census and the delete-one-rejected-call
+	// twins; re-tag what it found for this property.
+	c := o.Real
+	var viol []Violation
+	for _, v := range c.Viol {
+		if v.Has("C14") || v.Has("HARNESS") {
+			viol = append(viol, v)
+		}
+	}
+	for _, v := range o.Viol {
+		if v.Class == "rejected-call-left-a-trace" {
+			v.Props = append(v.Props, "C14")
+			v.Class = "rejected-input-left-a-trace"
+			viol = append(viol, v)
+		}
+	}
+	o.Viol = viol
+	nmal, nrej := 0, 0
+	for i, op := range c.H.Ops {
+		if op.Kind == OpMalformed && !c.R.Res[i].SkipMal {
+			nmal++
+			c.probe("mal:" + op.Mal.API + "/" + op.Mal.Kind)
+			if c.R.Res[i].Verdict != VOK {
+				nrej++
+			}
+		}
+	}
+	o.NonTrivial = nmal >= 2 && nrej >= 1
+	o.Probes = c.Probes
+	return o
+}
+
+func init() {
+	register(&ClassDef{
+		Prop: "C14",
+		Rule: "history with at least 2 calls from the malformed-input grammar, at least one of them rejected, followed by further operations, Visualize and String",
+		Gen: genGeneric("C14", func(g *genCtx) {
+			g.ft.FaultRate, g.ft.FaultInv = 0, 0
+			g.ft.MalRate = []float64{0.15, 0.3, 0.5}[g.r.Intn(3)]
+			g.ft.PAvail = 0.85
+			g.ft.NamedSlice = g.r.P(0.3)
+			g.ft.DecoIntroduce = g.r.P(0.3)
+		}, Mix{Scope: 2, Provide: 8, Decorate: 3, Invoke: 8, VisStr: 4}),
+		Eval:      evalC14,
+		QuickRuns: 50_000,
+	})
+}
